@@ -319,8 +319,11 @@ LOOP:
 		verifGate("reader.before_resync")
 		r.hw = hw
 		segments = r.cl.Segments()
-		hwIdx, hwPos, err := getHWPos(segments, r.hw)
-		if err != nil {
+		hwIdx, hwPos, hwErr := getHWPos(segments, r.hw)
+		if hwErr != nil {
+			// Assign the error that is returned (a := here would shadow it
+			// and the read would "succeed" with zero bytes).
+			err = hwErr
 			break
 		}
 		r.hwPos = hwPos
